@@ -33,8 +33,10 @@ def _smt_sign(facts, pc, q, op, timeout_ms=4000):
     return s.check() == z3.unsat
 
 
-def prove_sign(c, facts, pc, hyps, t, op, hints, signfacts, cert_timeout=40):
-    """returns a justification string or None"""
+def prove_sign(c, facts, pc, hyps, t, op, hints, signfacts, cert_timeout=30):
+    """returns a justification string or None; the whole search is time-boxed"""
+    import time as _time
+    t_end = _time.time() + 3 * cert_timeout
     t = T.lift(t)
     if _smt_sign(facts, pc, t, op, 1500):
         return 'z3'
@@ -49,6 +51,8 @@ def prove_sign(c, facts, pc, hyps, t, op, hints, signfacts, cert_timeout=40):
     cands = known_signs(signfacts) + cands
     saved = T._CTX[0]
     for q, qop in cands:
+        if _time.time() > t_end:
+            break
         if qop is not None and qop not in STRONGER[op]:
             continue
         p = T.eq_poly(t, q)
@@ -62,7 +66,7 @@ def prove_sign(c, facts, pc, hyps, t, op, hints, signfacts, cert_timeout=40):
                 continue
         finally:
             T.set_ctx(saved)
-        r = cert.prove_eq(p, list(hyps), c.order, timeout=cert_timeout, facts=list(facts) + list(pc))
+        r = cert.prove_eq(p, list(hyps), c.order, timeout=int(max(4, min(cert_timeout, t_end - _time.time()))), facts=list(facts) + list(pc), hyp_main=getattr(c, 'hyp_main', None))
         if r['status'] != 'discharged':
             continue
         if qop is not None:
